@@ -186,18 +186,28 @@ def run_unit(unit):
         rows = []
         for tag, row in unit["progs"]:
             toks = scopes_obs.observe(table[tag], names_of(row["prog"], tag), cpp, cl)
-            rows.append({"name": "%s:%s:%s" % (row["profile"], lang, row["key"]), "prog": row["prog"], "toks": toks})
+            rows.append({"name": "%s:%s:%s:%s" % (row["profile"], lang, row["key"], "m" if unit.get("variant") else "n"), "prog": row["prog"],
+                         "mut": bool(unit.get("variant")), "toks": toks})
         return {"status": "ok", "err": "", "rows": rows, "text": text}
     finally:
         shutil.rmtree(work, ignore_errors=True)
 
 
+def variant_of(row):
+    """Rendering variant: programs with lambdas are written with `mutable` lambdas (and assignments in their bodies) or with
+    plain lambdas (and reads in their bodies), decided by the program's digest."""
+    if "variant" in row:
+        return row["variant"]
+    has_lambda = any(it["op"] == "lambda" for it in row["prog"])
+    return 1 if has_lambda and int(row["key"], 16) % 2 else 0
+
+
 def make_units(progs, batch):
     units = []
-    for lang in ("c++", "c"):
-        sel = [p for p in progs if lang == "c++" or p["c"]]
+    for lang, variant in (("c++", 0), ("c++", 1), ("c", 0)):
+        sel = [p for p in progs if (lang == "c++" or p["c"]) and variant_of(p) == variant]
         for k in range(0, len(sel), batch):
-            units.append({"lang": lang, "progs": [(str(k + j), row) for j, row in enumerate(sel[k:k + batch])]})
+            units.append({"lang": lang, "variant": variant, "progs": [(str(k + j), row) for j, row in enumerate(sel[k:k + batch])]})
     return units
 
 
@@ -213,7 +223,7 @@ def observe_all(progs, batch=BATCH):
             if res["status"] == "ok":
                 rows += res["rows"]
             elif res["status"] == "clang-rejects" and len(unit["progs"]) > 1:
-                retry += [{"lang": unit["lang"], "progs": [pr]} for pr in unit["progs"]]
+                retry += [{"lang": unit["lang"], "variant": unit["variant"], "progs": [pr]} for pr in unit["progs"]]
             elif res["status"] == "clang-rejects":
                 rejected.append({"name": unit["progs"][0][1]["key"], "lang": unit["lang"], "err": res["err"][:400], "text": res["text"]})
             else:
@@ -253,8 +263,8 @@ def tlc_judge(rows, mode="spec", chunk=4000):
     return bad
 
 
-def program_text(prog, lang="c++"):
-    lines, _ = scopes_render.render(prog, "0", lang)
+def program_text(prog, lang="c++", variant=0):
+    lines, _ = scopes_render.render(prog, "0", lang, variant)
     return "\n".join(lines) + "\n"
 
 
@@ -284,7 +294,8 @@ def main(tier, seed, replay=None):
             c = classes.setdefault(it["key"], {"n": 0, "first": None})
             c["n"] += 1
             if c["first"] is None:
-                payload = {"name": b["name"], "lang": lang, "prog": row["prog"], "source": program_text(row["prog"], lang), "item": it}
+                payload = {"name": b["name"], "lang": lang, "variant": 1 if row["mut"] else 0, "prog": row["prog"],
+                           "source": program_text(row["prog"], lang, 1 if row["mut"] else 0), "item": it}
                 c["first"] = vlib.save_replay(PID, vlib.digest(it["key"]), payload)
                 c["what"] = "%s | e.g. %s: %s" % (it["kind"], b["name"], it["what"])
                 c["source"] = payload["source"]
@@ -310,7 +321,7 @@ def main(tier, seed, replay=None):
             shadow += 1
     samples = []
     for r in rows[:: max(1, len(rows) // 3)][:3]:
-        samples.append({"name": r["name"], "source": program_text(r["prog"], r["name"].split(":")[1])})
+        samples.append({"name": r["name"], "source": program_text(r["prog"], r["name"].split(":")[1], 1 if r["mut"] else 0)})
     cov = {
         "evaluations": len(rows), "distinct_nontrivial": shadow,
         "rule": "one evaluation = one generated program (in one language) analysed by cppcheck --dump and clang and judged by TLC; programs are "
@@ -344,7 +355,7 @@ def main(tier, seed, replay=None):
 def do_replay(path):
     payload = json.load(open(path))
     row = {"prog": payload["prog"], "profile": "replay", "key": vlib.digest(payload["prog"]), "c": payload["lang"] == "c"}
-    unit = {"lang": payload["lang"], "progs": [("0", row)]}
+    unit = {"lang": payload["lang"], "variant": payload.get("variant", 0), "progs": [("0", row)]}
     res = run_unit(unit)
     print(res["text"])
     if res["status"] != "ok":
